@@ -496,6 +496,19 @@ def parseOrLog (c : Cfg) (u : Str) : Except PyExc (Option URLInfo) :=
   | .ok i => .ok (some i)
   | .error e => if e.isa .ValueError then .ok none else .error e
 
+/-- the loop head of `ProcessingRule._process_scrape_info` (wpull/processor/rule.py), the consumer of
+the logging variant: `url_info = self.parse_url(link)`, `if not url_info: continue`; the kept results -/
+def scrapeParse (c : Cfg) : List Str → Except PyExc (List URLInfo)
+  | [] => .ok []
+  | l :: ls =>
+    match parseOrLog c l with
+    | .error e => .error e
+    | .ok none => scrapeParse c ls
+    | .ok (some i) =>
+      match scrapeParse c ls with
+      | .error e => .error e
+      | .ok r => .ok (i :: r)
+
 /-- `wpull.url.urljoin` around the stdlib join `stdJoin base url` (parameter) -/
 def urljoin (stdJoin : Str → Str → Except PyExc Str) (base url : Str) : Except PyExc Str :=
   if startsWith url [47, 47] && url.length > 2 then
